@@ -60,6 +60,9 @@ func (e *Engine) intrinsic(st *State, fr *Frame, x *ssa.Call, callee *ssa.Functi
 	if o := callee.Origin(); o != nil {
 		name = o.String()
 	}
+	if e.lockIntrinsic(st, fr, x, name, args) {
+		return nil, true
+	}
 	switch name {
 	case "errors.Is":
 		a, b := args[0].(VErr), args[1].(VErr)
